@@ -527,6 +527,32 @@ func rulesC10(c *Ctx) {
 			c.FnObj(pJ, "Connection", "Notify"): true, c.FnObj(pJ, "Connection", "Call"): true,
 			c.FnObj(pM, "", "handleNotify"): true, c.FnObj(pM, "", "handleSend"): true, c.FnObj(pM, "", "call"): true,
 		}
+		// ... and every function of the package that hands its own context parameter on to one of them (ss.Elicit,
+		// fulfillServerInputRequest, …), to a fixpoint
+		for changed := true; changed; {
+			changed = false
+			for _, f := range c.funcsWithLits(pM) {
+				if f.Lit != nil || f.Obj == nil || sinks[f.Obj] {
+					continue
+				}
+				cp := f.CtxParam()
+				if cp == nil {
+					continue
+				}
+				for _, call := range f.AllCalls(f.Body, true) {
+					fn := f.Callee(call)
+					if fn == nil || !sinks[fn.Origin()] || len(call.Args) == 0 {
+						continue
+					}
+					root, _ := ctxRoot(f, call.Args[0], 4)
+					if root == cp.Name() {
+						sinks[f.Obj] = true
+						changed = true
+						break
+					}
+				}
+			}
+		}
 		n := 0
 		for _, f := range c.funcsWithLits(pM) {
 			hasCtx := false
@@ -539,12 +565,21 @@ func rulesC10(c *Ctx) {
 			}
 			for _, call := range f.AllCalls(f.Body, false) {
 				fn := f.Callee(call)
-				if fn == nil || !sinks[fn] || len(call.Args) == 0 {
+				if fn == nil || !sinks[fn.Origin()] || len(call.Args) == 0 {
+					continue
+				}
+				if t := f.TypeOf(call.Args[0]); t == nil || t.String() != "context.Context" {
 					continue
 				}
 				n++
 				root, chain := ctxRoot(f, call.Args[0], 4)
 				key := "ctx-of:" + f.Name() + ":" + fn.Name()
+				// one reasoned exemption: the standing subscriptions/listen stream is started by Connect but is not sent on
+				// behalf of Connect's caller — it must outlive that context (the C04 rule on the listen context asks for exactly this)
+				if f.Name() == "(*Client).Connect" && fn.Name() == "subscriptionsListen" {
+					c.Ok(key, f, call, "exempt: the standing listen stream is detached from Connect's context by design")
+					continue
+				}
 				if hasCtx && (root == "context.Background" || root == "context.TODO") {
 					c.Fail(key, f, call, "%s is called with a context derived from %s (%s) although the caller's context is in scope: request-scoped values such as the routing id are lost, so the message travels on the wrong stream or is dropped", fn.Name(), root, chain)
 				} else {
@@ -590,6 +625,12 @@ func ctxRoot(f *Func, e ast.Expr, depth int) (string, string) {
 					chain += " ← " + exprStr(e)
 					continue
 				}
+			}
+			// errgroup.WithContext(parent) hands on its parent's values
+			if fn != nil && fn.Pkg() != nil && strings.HasSuffix(fn.Pkg().Path(), "/errgroup") && fn.Name() == "WithContext" && len(x.Args) == 1 {
+				e = ast.Unparen(x.Args[0])
+				chain += " ← " + exprStr(e)
+				continue
 			}
 			return exprStr(x.Fun) + "()", chain
 		case *ast.Ident:
